@@ -761,6 +761,22 @@ class Interp:
             if f is None:
                 raise PyRaise("TypeError", msg="not subscriptable")
             return self.call_function(f, [obj, key], {})
+        if isinstance(obj, (LList, LTuple)) and getattr(obj, "items", None) is not None \
+                and any(isinstance(x, (LList, LDict, SObj)) for x in obj.items):
+            # an in-place container among the items: which item a symbolic index addresses is decided by cases, so that
+            # the item keeps its identity (a store into it is a store into this list's item)
+            i = self.as_int(key)
+            if i is None:
+                zk = self.to_z(key)
+                self.guard([("TypeError", z3.Not(V.is_integral(zk)))])
+                i = V.intval(zk)
+            n = len(obj.items)
+            j = z3.If(i < 0, i + n, i)
+            self.guard([("IndexError", z3.Or(j < 0, j >= n))])
+            for p in range(n - 1):
+                if self.path.branch(j == p):
+                    return obj.items[p]
+            return obj.items[n - 1]
         if isinstance(obj, (LList, LTuple, ZSeq)):
             seq = self.seq_of(obj)
             i = self.as_int(key)
@@ -1071,6 +1087,10 @@ class Interp:
                     # frame-only: an object built through its constructor's frame contract has no modelled fields; reading one
                     # gives an unknown value (raising here would end the path and leave the stores after it unchecked)
                     return Z(V.fresh(f"{obj.cls.__name__}.{name}"))
+                if name in self.program.fields_assigned(obj.cls):
+                    # the real class stores this field but the shape the object was built from does not describe it: the
+                    # object is outside the model (not an AttributeError of the code)
+                    raise Unsupported(f"field {obj.cls.__name__}.{name} is assigned by the class but is not part of the shape")
                 raise PyRaise("AttributeError", msg=f"{obj.cls.__name__}.{name}")
             return self.bind_class_attr(raw, obj, obj.cls)
         if isinstance(obj, SuperProxy):
@@ -1751,6 +1771,22 @@ class Interp:
                     obj.items[key.v] = v
                 except IndexError:
                     raise PyRaise("IndexError")
+                return
+            if obj.concrete and (any(isinstance(x, (LList, LDict, SObj)) for x in obj.items) or isinstance(v, (LList, LDict, SObj))):
+                # in-place containers among the items (or stored now): keep the spine, decide the position by cases
+                i = self.as_int(key)
+                if i is None:
+                    zk = self.to_z(key)
+                    self.guard([("TypeError", z3.Not(V.is_integral(zk)))])
+                    i = V.intval(zk)
+                n = len(obj.items)
+                j = z3.If(i < 0, i + n, i)
+                self.guard([("IndexError", z3.Or(j < 0, j >= n))])
+                for p in range(n - 1):
+                    if self.path.branch(j == p):
+                        obj.items[p] = v
+                        return
+                obj.items[n - 1] = v
                 return
             seq = self.seq_of(obj)
             i = self.as_int(key)
